@@ -21,6 +21,12 @@
 
 size_t libwifi_add_action_detail(struct libwifi_action_detail *detail, const unsigned char *data,
                                  size_t data_len) {
+    // Nothing to append: allocating a zero length block here would be leaked by the next call,
+    // which still sees a zero detail_length
+    if (data_len == 0) {
+        return detail->detail_length;
+    }
+
     // Keep the existing detail if it cannot be extended
     char *buf = NULL;
     if (detail->detail_length != 0) {
